@@ -463,11 +463,9 @@ class Merger:
             # This list is an Array-of-Arrays or a simple list of Scalars
             return self._merge_simple_lists(lhs, rhs, path, node_coord)
 
-        # No RHS list
-        if not isinstance(lhs, CommentedSeq):
-            raise MergeException(
-                "Impossible to add Array data to non-Array destination.", path)
-        return lhs
+        # No RHS elements:  nothing to add, though the Array policy may still
+        # select one side.
+        return self._merge_simple_lists(lhs, rhs, path, node_coord)
 
     def _merge_sets(
         self, lhs: CommentedSet, rhs: CommentedSet, path: YAMLPath,
@@ -821,6 +819,11 @@ class Merger:
                     " so as to block unintentional STDIN reading."
                 ).format(basename(sys.argv[0]))
             raise MergeException(ex_message, insert_at)
+        elif insert_at.is_root:
+            # A Scalar document is its own root node; there is no parent
+            # through which to replace it.
+            self.data = rhs
+            merge_performed = True
         else:
             lhs_proc.set_value(insert_at, rhs)
             merge_performed = True
